@@ -1070,6 +1070,10 @@ func (in *Inst) resolveLocal(name string, at *ssa.BasicBlock, atIdx int, st *Sta
 						}
 					}
 				case *ssa.DebugRef:
+					if fv, isVar := x.Object().(*types.Var); isVar && fv.IsField() {
+						// the selector of a field access: not a local of that name
+						continue
+					}
 					if x.Object() != nil && x.Object().Name() == name {
 						if _, isConst := x.X.(*ssa.Const); isConst {
 							consider(cand{d, i, x.X, x.IsAddr, x.Object()})
